@@ -155,6 +155,9 @@ def step_checked(rec, w, shard, hist_, ms, op):
             rec.outcome(("stop", op[0]))
             return None
         rec.outcome((op[0], tuple(sorted((n, o.life) for n, o in post.objs.items()))))
+        if closure > 2 or (flushy and ms.deparented and any(o.life == "X" for o in post.objs.values())):
+            rec.sample(dict(world=wk, history=ow.fmt_hist(hist_ + (op,)), states={n: o.life for n, o in sorted(post.objs.items())},
+                            rows=post.rows_as_lists() if flushy else None), limit=3)
         return post, key
     finally:
         if run is not None:
